@@ -39,8 +39,11 @@ def maxCFHeadersLen : Nat := 100000
 /-- the fixed multiple of the allocation clause: a decode requests at most `allocK * MaxMessagePayload` bytes -/
 def allocK : Nat := 12
 
-/-! ### bytes charged per element when a decoder calls `make` after accepting a count
-(struct size + the 8-byte pointer kept in the message's slice; pinned against `unsafe.Sizeof`) -/
+/-! ### bytes the MODEL charges per element when a decoder calls `make` after accepting a count
+(nominal: struct size of the 64-bit build at the time of writing + the 8-byte pointer kept in the message's
+slice). These are internal quantities of the implementation, so they are NOT pinned against the tree: the
+allocation theorems are statements about the model's charge points, and the tie to real memory is the heap
+growth measured on the Go side for every case against the same multiple `allocK`. -/
 def eszTxIn : Nat := 104        -- TxIn 96 + pointer
 def eszTxOut : Nat := 40        -- TxOut 32 + pointer
 def eszWitnessItem : Nat := 24  -- slice header
